@@ -13,7 +13,7 @@ PROP = {
     ],
 }
 TEXT = {
-    "text": "Coq theorems: the invariant Inv (memory invariant + 'the disk holds exactly what start-up needs': keys, GCA key file, authorization log whose load-time replay reproduces the device table / key lookup / bans, report log whose per-device replay reproduces every window, archive file = archived weeks) holds after first start for every clock and after EVERY operation list (registrations, authorizations incl. conflicts, reports incl. banned slots, rotations, impact data, queries, restarts); from any such state start-up SUCCEEDS and rebuilds an extensionally equal state (c04_load_equiv: same GCA key, devices, lookups, bans, every slot, offset, identical archived weeks), restart = that start-up + the catch-up rotations the clock requires (c04_restart_equiv), and restart is idempotent. Key lemmas: replay makes the same ban decisions as the live path, rotation commutes with replay of the report log, re-appended reports are replay-neutral. Correspondence: histories with a restart after many prefixes, doubled restarts, restarts at clocks needing 0/1/several catch-up rotations, incl. the banned-device-with-persisted-reports scenario; files compared record by record, Go-side oracle compares snapshots before/after. Added after seeded-change rounds: storage-fault tour (a registration whose key file cannot be written leaves no trace), long run beyond the recent-report list then restart.",
+    "text": "Coq theorems: the invariant Inv (memory invariant + 'the disk holds exactly what start-up needs': keys, GCA key file, authorization log whose load-time replay reproduces the device table / key lookup / bans, report log whose per-device replay reproduces every window, archive file = archived weeks) holds after first start for every clock and after EVERY operation list (registrations, authorizations incl. conflicts, reports incl. banned slots, rotations, impact data, queries, restarts); from any such state start-up SUCCEEDS and rebuilds an extensionally equal state (c04_load_equiv: same GCA key, devices, lookups, bans, every slot, offset, identical archived weeks), restart = that start-up + the catch-up rotations the clock requires (c04_restart_equiv), and restart is idempotent. Key lemmas: replay makes the same ban decisions as the live path, rotation commutes with replay of the report log, re-appended reports are replay-neutral. Correspondence: histories with a restart after many prefixes, doubled restarts, restarts at clocks needing 0/1/several catch-up rotations, incl. the banned-device-with-persisted-reports scenario; files compared record by record, Go-side oracle compares snapshots before/after. Added after seeded-change rounds: storage-fault tour (a registration whose key file cannot be written leaves no trace), long run beyond the recent-report list then restart. Round 5: weeks archived by the start-up catch-up compared with the persisted live reports; 40 devices (equipment file longer than any one read buffer) across restarts.",
     "note": "Trusted: Coq kernel+vm_compute, harness. The kernel keeps completed appends (process-restart model); impact rates of the live window are not persisted by the code (outside the property's list) and are compared only by domain.",
     "technique": "Coq proof (incremental = replay invariant over operation lists: induction with extensional map equality, commutation of rotation with replay, idempotence of re-appended reports) + differential correspondence + oracle",
 }
